@@ -12,13 +12,13 @@ import (
 // (false, err), never a panic; a well-formed ChannelData frame is always treated as ChannelData,
 // whatever its payload looks like.
 //
-//verif:props=C09,C05,C13 bounds="arbitrary datagram of 0..28 (quick) / 0..40 (thorough) bytes (all bytes symbolic); source = the STUN server address or another address; no relayed conn / a relayed conn with one binding"
+//verif:props=C09,C05,C13 maxpaths=100000 bounds="arbitrary datagram of 0..28 (quick) / 0..32 (thorough) bytes (all bytes symbolic); source = the STUN server address or another address; no relayed conn / a relayed conn with one binding"
 func VerifHarness_C09_client_classify() {
 	conn := &allocation.VPacketConn{Name: "client"}
 	c := vNewClient(conn, 200e6)
 	server := allocation.VUDPAddr4()
 	c.stunServerAddr = server
-	data := vBytes(28 + 12*vTier())
+	data := vBytes(28 + 4*vTier())
 	var from net.Addr = server
 	if vBool() {
 		from = allocation.VUDPAddr4()
